@@ -191,3 +191,144 @@ Proof.
       change (2 ^ 29) with 536870912. change (2 ^ 53) with 9007199254740992.
       lia.
 Qed.
+
+(* ---------- from the decoder's pre-floats to Flocq's validated binary32 / binary64 ---------- *)
+Definition B32 (b : N) : binary32 := b32_of_bits (Z.of_N b).
+Definition B64w (b : N) : binary64 := b64_of_bits (Z.of_N (widen32 b)).
+
+Lemma B2FF_B32 b : B2FF 24 128 (B32 b) = ff32 b.
+Proof. unfold B32, b32_of_bits, binary_float_of_bits. rewrite B2FF_FF2B. reflexivity. Qed.
+Lemma B2FF_B64w b : B2FF 53 1024 (B64w b) = ff64 b.
+Proof. unfold B64w, b64_of_bits, binary_float_of_bits. rewrite B2FF_FF2B. reflexivity. Qed.
+
+Lemma sign_B2FF prec emax (x : binary_float prec emax) : sign_FF (B2FF prec emax x) = Bsign prec emax x.
+Proof. now destruct x. Qed.
+Lemma is_nan_B2FF' prec emax (x : binary_float prec emax) : is_nan_FF (B2FF prec emax x) = is_nan prec emax x.
+Proof. now destruct x. Qed.
+
+(* NaN payload (fraction field) of a float; 0 for non-NaNs *)
+Definition pl_FF (x : full_float) : Z := match x with F754_nan _ pl => Zpos pl | _ => 0%Z end.
+Definition nan_pl {prec emax} (x : binary_float prec emax) : Z :=
+  match x with B754_nan _ _ _ pl _ => Zpos pl | _ => 0%Z end.
+Lemma pl_B2FF prec emax (x : binary_float prec emax) : pl_FF (B2FF prec emax x) = nan_pl x.
+Proof. now destruct x. Qed.
+(* "is a non-zero finite number" on pre-floats *)
+Definition is_finite_strict_FF (x : full_float) : bool := match x with F754_finite _ _ _ => true | _ => false end.
+Lemma is_finite_strict_B2FF' prec emax (x : binary_float prec emax) :
+  is_finite_strict_FF (B2FF prec emax x) = is_finite_strict prec emax x.
+Proof. now destruct x. Qed.
+
+Lemma cond_Zopp_mul s a c : SpecFloat.cond_Zopp s a * c = SpecFloat.cond_Zopp s (a * c).
+Proof. destruct s; cbn; ring. Qed.
+
+(* what [widens] means for values, signs and classes *)
+Lemma widens_finite x y : widens x y -> is_finite_FF x = true ->
+  is_finite_FF y = true /\ FF2R radix2 y = FF2R radix2 x /\ sign_FF y = sign_FF x /\
+  is_finite_strict_FF y = is_finite_strict_FF x.
+Proof.
+  destruct x as [s|s|s pl|s m e]; cbn [widens is_finite_FF]; intros W F; try discriminate.
+  - subst y. repeat split.
+  - destruct W as (m' & e' & -> & Le & Em & _). cbn [is_finite_FF FF2R sign_FF is_finite_strict_FF].
+    repeat split. rewrite (F2R_change_exp radix2 e' _ e Le). rewrite Em. f_equal. f_equal.
+    change (radix2 ^ (e - e')) with (2 ^ (e - e')). symmetry. apply cond_Zopp_mul.
+Qed.
+
+(* (1) finite singles: same real value, same sign, finite; zero stays zero, non-zero stays non-zero *)
+Theorem widen32_finite b : (b < 4294967296)%N -> is_finite 24 128 (B32 b) = true ->
+  is_finite 53 1024 (B64w b) = true /\
+  B2R 53 1024 (B64w b) = B2R 24 128 (B32 b) /\
+  Bsign 53 1024 (B64w b) = Bsign 24 128 (B32 b) /\
+  is_finite_strict 53 1024 (B64w b) = is_finite_strict 24 128 (B32 b).
+Proof.
+  intros H F. pose proof (widen32_widens b H) as W.
+  rewrite <- is_finite_B2FF, B2FF_B32 in F.
+  destruct (widens_finite _ _ W F) as (A & B & C & D).
+  rewrite <- !is_finite_B2FF, <- !FF2R_B2FF, <- !sign_B2FF, <- !is_finite_strict_B2FF', !B2FF_B32, !B2FF_B64w.
+  auto.
+Qed.
+
+(* signed zeros: +0 -> +0, -0 -> -0 *)
+Theorem widen32_zero b s : (b < 4294967296)%N -> B32 b = B754_zero 24 128 s -> B64w b = B754_zero 53 1024 s.
+Proof.
+  intros H E. pose proof (widen32_widens b H) as W. rewrite <- B2FF_B32, E in W. cbn in W.
+  apply B2FF_inj. rewrite B2FF_B64w. exact W.
+Qed.
+
+(* every non-zero finite single, subnormal ones included, becomes a NORMAL double:
+   Flocq mantissa of full 53-bit width, i.e. exponent field of the pattern in 1..2046 (in fact 874..1150) *)
+Theorem widen32_normal b : (b < 4294967296)%N -> is_finite_strict 24 128 (B32 b) = true ->
+  (exists s m e, B2FF 53 1024 (B64w b) = F754_finite s m e /\ (2^52 <= Zpos m < 2^53)%Z) /\
+  (874 <= (widen32 b / 4503599627370496) mod 2048 <= 1150)%N.
+Proof.
+  intros H F. pose proof (widen32_widens b H) as W.
+  rewrite <- is_finite_strict_B2FF', B2FF_B32 in F. split.
+  - rewrite B2FF_B64w. destruct (ff32 b); try discriminate. destruct W as (m' & e' & -> & _ & _ & R). eauto.
+  - assert (Hw : ((widen32 b / 4503599627370496) mod 2048 = we b)%N).
+    { rewrite widen32_fields. destruct (wm_we_range b H). destruct (fields_N b H) as (_ & ? & _).
+      symmetry. apply (N.mod_unique _ _ (fs b)); [assumption|].
+      symmetry. apply (N.div_unique _ _ _ (wm b)); [assumption|]. lia. }
+    rewrite Hw. rewrite (ff32_dec b H) in F. destruct (fields_N b H) as (_ & _ & He & Hm).
+    unfold dec in F. change 0%Z with (Z.of_N 0) in F. change 255%Z with (Z.of_N 255) in F.
+    rewrite !Zeq_bool_N in F. unfold we.
+    destruct (fe b =? 0)%N eqn:E0.
+    + assert (E255 : (fe b =? 255)%N = false) by lia. rewrite E255.
+      destruct (fm b) as [|p] eqn:Em; [discriminate|]. change ((N.pos p =? 0)%N) with false. cbv iota.
+      destruct (log2_fm (N.pos p) ltac:(lia)) as (K & _). lia.
+    + destruct (fe b =? 255)%N eqn:E255; [destruct (Z.of_N (fm b)); discriminate|]. lia.
+Qed.
+
+(* (2) infinities keep their sign *)
+Theorem widen32_infinity b s : (b < 4294967296)%N ->
+  B32 b = B754_infinity 24 128 s -> B64w b = B754_infinity 53 1024 s.
+Proof.
+  intros H E. pose proof (widen32_widens b H) as W. rewrite <- B2FF_B32, E in W. cbn in W.
+  apply B2FF_inj. rewrite B2FF_B64w. exact W.
+Qed.
+
+(* (3) NaNs stay NaNs with the same sign; the fraction field p (23 bits, non-zero) becomes
+   2^51 + (p mod 2^22) * 2^29: the low 22 payload bits move to bits 29..50, the quiet bit (bit 22 of a single,
+   bit 51 of a double) is SET whatever it was, the low 29 bits are zero. *)
+Theorem widen32_nan b : (b < 4294967296)%N -> is_nan 24 128 (B32 b) = true ->
+  is_nan 53 1024 (B64w b) = true /\
+  Bsign 53 1024 (B64w b) = Bsign 24 128 (B32 b) /\
+  nan_pl (B64w b) = (2^51 + (nan_pl (B32 b) mod 2^22) * 2^29)%Z.
+Proof.
+  intros H F. pose proof (widen32_widens b H) as W.
+  rewrite <- is_nan_B2FF', B2FF_B32 in F.
+  rewrite <- !is_nan_B2FF', <- !sign_B2FF, <- !pl_B2FF, !B2FF_B32, !B2FF_B64w.
+  destruct (ff32 b); try discriminate. destruct W as (pl' & -> & E). cbn [is_nan_FF sign_FF pl_FF]. auto.
+Qed.
+
+(* the same, split by the quiet bit of the input: a quiet NaN keeps its payload (shifted by 29),
+   a signalling NaN is quieted and otherwise keeps its payload *)
+Lemma quiet_split p : (0 <= p < 2^23)%Z ->
+  (2^51 + (p mod 2^22) * 2^29 = if Z.testbit p 22 then p * 2^29 else p * 2^29 + 2^51)%Z.
+Proof.
+  intros R. rewrite Z.testbit_odd, Z.shiftr_div_pow2 by lia.
+  pose proof (Z.div_mod p (2^22) ltac:(lia)) as D. pose proof (Z.mod_pos_bound p (2^22) ltac:(lia)) as M.
+  assert (Q : (p / 2^22 = 0 \/ p / 2^22 = 1)%Z).
+  { assert (0 <= p / 2^22 < 2)%Z; [|lia]. split; [apply Z.div_pos; lia | apply Z.div_lt_upper_bound; lia]. }
+  change (2^22)%Z with 4194304%Z in *. change (2^29)%Z with 536870912%Z. change (2^51)%Z with 2251799813685248%Z.
+  destruct Q as [Q|Q]; rewrite Q in *; cbn [Z.odd]; lia.
+Qed.
+
+Theorem widen32_nan_quiet b : (b < 4294967296)%N -> is_nan 24 128 (B32 b) = true ->
+  nan_pl (B64w b) = (if Z.testbit (nan_pl (B32 b)) 22 then nan_pl (B32 b) * 2^29
+                     else nan_pl (B32 b) * 2^29 + 2^51)%Z /\
+  Z.testbit (nan_pl (B64w b)) 51 = true.
+Proof.
+  intros H F. destruct (widen32_nan b H F) as (_ & _ & E).
+  assert (R : (0 <= nan_pl (B32 b) < 2^23)%Z).
+  { rewrite <- pl_B2FF, B2FF_B32, (ff32_dec b H). destruct (fields_N b H) as (_ & _ & He & Hm).
+    unfold dec. destruct (Zeq_bool (Z.of_N (fe b)) 0).
+    - destruct (Z.of_N (fm b)); cbn; lia.
+    - destruct (Zeq_bool (Z.of_N (fe b)) 255).
+      + destruct (Z.of_N (fm b)) eqn:Em; cbn; lia.
+      + destruct (Z.of_N (fm b) + 2 ^ 23)%Z; cbn; lia. }
+  split; [rewrite E; apply quiet_split; exact R|].
+  rewrite E. rewrite Z.testbit_odd, Z.shiftr_div_pow2 by lia.
+  pose proof (Z.mod_pos_bound (nan_pl (B32 b)) (2^22) ltac:(lia)) as M.
+  replace ((2 ^ 51 + nan_pl (B32 b) mod 2 ^ 22 * 2 ^ 29) / 2 ^ 51)%Z with 1%Z; [reflexivity|].
+  apply (Z.div_unique _ _ _ (nan_pl (B32 b) mod 2 ^ 22 * 2 ^ 29)); [|lia].
+  left. change (2^22)%Z with 4194304%Z in *. change (2^29)%Z with 536870912%Z. change (2^51)%Z with 2251799813685248%Z. lia.
+Qed.
